@@ -594,6 +594,12 @@ func (lb *LoadBalancer) RemoveBackend(name string) {
 	lb.healthChecks.unhealthyBackendMu.Lock()
 	delete(lb.healthChecks.unhealthyBackends, name)
 	lb.healthChecks.unhealthyBackendMu.Unlock()
+
+	// So do its metrics: the metrics table is limited to MaxBackendMetrics names, and names
+	// that are gone must not use it up for the backends that are there
+	if lb.metricsCollector != nil {
+		lb.metricsCollector.RemoveBackend(name)
+	}
 }
 
 // NextBackend returns the next backend server according to the strategy
